@@ -298,15 +298,21 @@ class C08(Prop):
             "Err, no panic/abort/timeout, error and warning spans inside the input on character boundaries, "
             "descriptions render, parser and compiler agree, accepted sets finalize and scan.  PROOF: the call graph "
             "and guards are re-extracted and checked by coqc on every run.  Non-trivial: distinct (text, parameters).")
-    TRUSTED = ["Coq 8.16.1 kernel + vm_compute (checker evaluation)", "translators/callgraph.py (function and edge "
-               "extraction from Rust source text; resolution rules in its header)", "translators/consts_parser.py",
+    TRUSTED = ["Coq 8.16.1 kernel + vm_compute (checker evaluation)", "translators/callgraph.py + translators/guardflow.py "
+               "(function, edge and guard control-flow extraction from Rust source text; rules in their headers)", "translators/consts_parser.py",
                "harness/src/bin/c08.rs", "vlib/props/c08.py"]
-    ASSUMPTIONS = ["a guard's counter is never lower than the number of active guarded functions of its class "
-                   "(decrements only undo the function's own increment; Input is Copy so Err paths drop the copy)",
+    ASSUMPTIONS = ["counter balance is CHECKED (C08_counter_balanced: every path of the extracted control-flow graph of "
+                   "each counter-guarded function hands back the entry counter on Ok and never goes below it); what is "
+                   "trusted there is the reading of the Rust text into that graph (translators/guardflow.py: statement "
+                   "subset listed in its header, anything else in a guarded function is rejected with the site named; "
+                   "flat expressions and closures handed to combinators are accepted by pattern and listed at the end "
+                   "of the generated Model/CallGraph.v)",
+                   "unguarded functions pass the carrier on unchanged: checked as far as 'no function outside the "
+                   "guards writes a counter' and 'no function reachable from a parser guard builds a fresh Input'",
                    "functions outside the translator's scope (nom, std, regex-syntax, module compile hooks) do not call "
                    "back into the scope except through the edges found",
                    "bytes of stack per frame are not modelled: the theorem bounds the number of frames",
-                   "everything except the depth bound is exploration"]
+                   "everything except the depth bound and the counter balance is exploration"]
 
     def translators(self, ctx):
         from translators import consts_parser, callgraph
